@@ -155,6 +155,10 @@ type Spec struct {
 	// Every-th step only
 	Prefill int `json:"prefill,omitempty"`
 	Every   int `json:"every,omitempty"`
+	// Scan > 0: after the random part, Scan pages that were never resident
+	// are stored one after the other with no lookup in between (what a table
+	// scan over cold pages does), then a short random tail
+	Scan int `json:"scan,omitempty"`
 }
 
 func (sp *Spec) Sequences(f func(n uint64, steps []Step)) {
@@ -175,5 +179,12 @@ func (sp *Spec) Sequences(f func(n uint64, steps []Step)) {
 			pre = append(pre, Step{Op: op, Key: k})
 		}
 	}
-	f(0, append(pre, Random(sp.Seed, sp.Steps, sp.Keys, sp.Dirty)...))
+	steps := append(pre, Random(sp.Seed, sp.Steps, sp.Keys, sp.Dirty)...)
+	if sp.Scan > 0 {
+		for i := 0; i < sp.Scan; i++ {
+			steps = append(steps, Step{Op: OpSetClean, Key: sp.Keys + i})
+		}
+		steps = append(steps, Random(sp.Seed+1, 60, sp.Keys+sp.Scan, sp.Dirty)...)
+	}
+	f(0, steps)
 }
